@@ -83,6 +83,37 @@ def run_seeded(sid: str, repo: str) -> Dict:
         shutil.rmtree(tmp, ignore_errors=True)
 
 
+def _patched_overrides(patch: str, repo: str):
+    tmp = tempfile.mkdtemp(prefix="verif_patch_")
+    try:
+        shutil.copytree(os.path.join(repo, "py7zr"), os.path.join(tmp, "py7zr"))
+        p = subprocess.run(["patch", "-p1", "-s", "--no-backup-if-mismatch", "-i", patch], cwd=tmp, capture_output=True, text=True)
+        if p.returncode != 0:
+            return None
+        overrides = {}
+        for fn in os.listdir(os.path.join(tmp, "py7zr")):
+            if fn.endswith(".py"):
+                a = open(os.path.join(tmp, "py7zr", fn), encoding="utf-8").read()
+                b = open(os.path.join(repo, "py7zr", fn), encoding="utf-8").read()
+                if a != b:
+                    overrides[f"py7zr/{fn}"] = a
+        return overrides
+    finally:
+        shutil.rmtree(tmp, ignore_errors=True)
+
+
+def run_refactor(rid: str, prop: str, repo: str) -> Dict:
+    """a behaviour-preserving refactoring: the check of `prop` must stay silent (no new violation, no analysis error)."""
+    d = os.path.join(VERIF, "refactors", rid)
+    ov = _patched_overrides(os.path.join(d, "patch.diff"), repo)
+    if ov is None:
+        return {"name": f"refactor/{rid}", "property": prop, "expect": "silence", "status": "n/a", "detail": "patch does not apply to the current tree"}
+    r = _run_overrides(prop, repo, ov)
+    if r["rc"] == 0 and r["n"] == 0:
+        return {"name": f"refactor/{rid}", "property": prop, "expect": "silence", "status": "silent", "rules": [], "detail": ""}
+    return {"name": f"refactor/{rid}", "property": prop, "expect": "silence", "status": "ALARM", "rules": r["rules"], "detail": r["first"]}
+
+
 def run_for_property(prop: str, repo: str) -> List[Dict]:
     out = [run_witness(w, repo) for w in WITNESSES if w["property"] == prop]
     sd = os.path.join(VERIF, "seeded")
@@ -98,6 +129,8 @@ def _job(args):
     kind, key, repo = args
     if kind == "w":
         return run_witness(WITNESSES[key], repo)
+    if kind == "r":
+        return run_refactor(key[0], key[1], repo)
     return run_seeded(key, repo)
 
 
@@ -106,9 +139,21 @@ def selftest(repo: str, jobs: int = 16) -> int:
     sd = os.path.join(VERIF, "seeded")
     if os.path.isdir(sd):
         tasks += [("s", sid, repo) for sid in sorted(os.listdir(sd)) if os.path.exists(os.path.join(sd, sid, "meta.json"))]
+    rd = os.path.join(VERIF, "refactors")
+    props = [f"C{i:02d}" for i in range(1, 21)]
+    if os.path.isdir(rd):
+        tasks += [("r", (rid, p), repo) for rid in sorted(os.listdir(rd)) if os.path.exists(os.path.join(rd, rid, "patch.diff")) for p in props]
     with ProcessPoolExecutor(max_workers=jobs) as ex:
-        res = list(ex.map(_job, tasks))
+        res = list(ex.map(_job, tasks, chunksize=4))
     bad = 0
+    alarms = [r for r in res if r["status"] == "ALARM"]
+    n_ref = sum(1 for r in res if r["name"].startswith("refactor/"))
+    n_silent = sum(1 for r in res if r["status"] == "silent")
+    for r in alarms:
+        print(f"ALARM {r['property']} {r['name']}: a behaviour-preserving refactoring raises {r['rules']} - {r['detail'][:140]}")
+        bad += 1
+    print(f"refactorings: {n_silent} silent of {n_ref} (refactoring x property) runs, {len(alarms)} false alarms")
+    res = [r for r in res if not r["name"].startswith("refactor/")]
     for r in res:
         mark = {"fired": "ok  ", "n/a": "n/a ", "expected-miss": "miss*", "fired-other": "ok? "}.get(r["status"], "FAIL")
         print(f"{mark} {r['property']} {r['name']}: expect {r['expect']} got {r.get('rules', [])} {('- ' + r['detail'][:110]) if r['status'] not in ('fired',) else ''}")
